@@ -179,6 +179,8 @@ func checkC05(r *evid.Run) {
 		}
 		checkWalkState(r, d, concs)
 	})
+	// the walk under every option sequence (Options.tla): options a walk has no use for change nothing
+	checkOptions(r, "rule", []int{0}, func(s *optState) bool { return s.Op == "walk" && !s.has("massive") })
 	r.Set("exhaustive", true)
 	r.Set("rule", "every well-formed document up to the line bound x every stop position k (callback error / iterator break) x {WalkFromMarkdown, WalkFromRoot, WalkIterFromRoot} x branch tuples; non-trivial = at least 3 nodes")
 	traceDocs(r, "C05", traceSpecC05)
